@@ -461,8 +461,12 @@ class Connection:
             srecs.append(Rec("s", sw.protect(CT_HS, hs_msg(20, rng.randbytes(fin_len)), first_byte=s["fin_first_byte"]), "hs_enc"))
             self.sends.append(("s", srecs))
         for d, n in s["history"]:
-            data = self._app_payload(d, n)
             w = cw if d == "c" else sw
+            if n == "hello_request":
+                # an encrypted handshake record that is no Finished: HelloRequest (RFC 5246 7.4.1.1; the peer may ignore it)
+                self.sends.append((d, [Rec(d, w.protect(CT_HS, hs_msg(0, b"")), "hs_enc")]))
+                continue
+            data = self._app_payload(d, n)
             self.app[d].append(data)
             self.sends.append((d, [Rec(d, w.protect(CT_APP, data, pad_blocks=s["pad_blocks"]), "app", data)]))
         for d in (s.get("trailing_other") or ()):
